@@ -106,7 +106,17 @@ func main() {
 				emit("corpus:"+filepath.Base(f), op)
 			}
 		}
-		p.Gen(ctx, emit)
+		// a generator that calls into the code under test while it prepares a case must not take the
+		// run down with it: the panic is recorded as a failing case of its own
+		func() {
+			defer func() {
+				if r := recover(); r != nil {
+					ctx.Add(Case{Class: "panic-while-preparing-a-case", Op: fmt.Sprintf("(generator of %s)", prop), Impl: "panic",
+						NoModel: true, NonTrivial: true, Oracle: fmt.Sprintf("the code under test panicked while the harness was preparing its cases: %v", r)})
+				}
+			}()
+			p.Gen(ctx, emit)
+		}()
 	}
 	if err := ctx.finish(start); err != nil {
 		fmt.Fprintln(os.Stderr, "corr:", err)
